@@ -218,6 +218,7 @@ func symGame(r *RNG, cfg tak.Config, maxPlies int) ([]tak.Move, *tak.Position) {
 	var pending [2][]tak.Move
 	greedy := r.Intn(100)  // chance (percent) to choose the most symmetric continuation
 	payDebt := 50 + r.Intn(50)
+	keepSym := []int{0, 0, 30, 70, 95}[r.Intn(5)] // chance to play a move that is its own mirror image
 	for ply := 0; ply < maxPlies; ply++ {
 		if over, _ := p.GameOver(); over {
 			break
@@ -235,6 +236,24 @@ func symGame(r *RNG, cfg tak.Config, maxPlies int) ([]tak.Move, *tak.Position) {
 			pending[side] = append(pending[side][:i:i], pending[side][i+1:]...)
 			if containsMove(legal, cand) {
 				m, chosen = cand, true
+			}
+		}
+		if !chosen && r.Intn(100) < keepSym {
+			// a move that one of the symmetries of the position maps to itself keeps that symmetry
+			st := stabiliser(p)
+			if len(st) > 1 {
+				var fixed []tak.Move
+				for _, cand := range legal {
+					for _, k := range st[1:] {
+						if gMove(k, size, cand).Equal(cand) {
+							fixed = append(fixed, cand)
+							break
+						}
+					}
+				}
+				if len(fixed) > 0 {
+					m, chosen = fixed[r.Intn(len(fixed))], true
+				}
 			}
 		}
 		if !chosen && r.Intn(100) < greedy {
